@@ -277,6 +277,13 @@ func (s *Error) UnmarshalXML(d *xml.Decoder, start xml.StartElement) error {
 			if err = d.Skip(); err != nil {
 				return err
 			}
+		default:
+			// Application specific conditions and anything else we do not know
+			// about must be skipped as a whole, otherwise their end element would
+			// be mistaken for the end of the error.
+			if err = d.Skip(); err != nil {
+				return err
+			}
 		}
 	}
 }
